@@ -134,7 +134,7 @@ static bool runOcca(const std::string &src, std::vector<std::string> &lines, int
   std::cout.flush(); fflush(stdout);
   int saved = dup(1), devnull = open("/dev/null", O_WRONLY);
   protoFd = saved; dup2(devnull, 1); close(devnull);
-  setCpuLimit(6);
+  setCpuLimit(3);
   while (!ts.isEmpty()) {
     token_t *t = NULL;
     ts >> t;
